@@ -344,6 +344,14 @@ func runC16(rec *vkit.Recorder, c *c16Case, t *rapid.T) []vkit.Violation {
 		}
 		effective++
 		cls = append(cls, "edit/"+name)
+		// a long-running process that reloads from the old to the new content computes the same hash
+		// as a fresh process that only ever saw the new content
+		same := prom.NewConfigManager()
+		if same.ReloadFromRaw([]byte(text0)) == nil && same.ReloadFromRaw([]byte(txt)) == nil {
+			if hs := same.ConfigInfo().ConfigHash; hs != h1 {
+				add("C16/hash-depends-on-reload-history/"+name, "after reloading from the old to the new content the hash is %s, a fresh process computes %s (edit %q)", hs, h1, name)
+			}
+		}
 		if h1 == h0 {
 			add("C16/edit-not-detected/"+name, "edit %q changes the loaded configuration but not the hash (%s)\n--- before\n%s\n--- after\n%s", name, h0, text0, txt)
 			continue
